@@ -416,7 +416,20 @@ This command wraps "go %s". Below is its help:
 	}
 	sharedCache.BinaryContentID = decodeBuildIDHash(splitContentID(binaryBuildID))
 
-	if err := appendListedPackages(args, true); err != nil {
+	listArgs := args
+	if command == "run" {
+		// "go run" takes one package, or a list of .go files;
+		// any arguments after that belong to the program being run.
+		n := 0
+		for n < len(args) && strings.HasSuffix(args[n], ".go") {
+			n++
+		}
+		if n == 0 && len(args) > 0 {
+			n = 1
+		}
+		listArgs = args[:n]
+	}
+	if err := appendListedPackages(listArgs, true); err != nil {
 		return nil, err
 	}
 
